@@ -1,5 +1,99 @@
 import ZoektModel.Basic.Proto
+import ZoektModel.C08.Spec
 namespace ZoektModel.C08
-/-- stub: no model driver for C08 yet -/
-def main : IO Unit := ZoektModel.Proto.runLines (fun _ => ZoektModel.Proto.badCase "no model driver for C08")
+open ZoektModel ZoektModel.Proto
+
+def parseRunes (s : String) : Option (List Nat) :=
+  if s == "-" || s == "" then some [] else (s.splitOn ".").mapM String.toNat?
+def showRunes (l : List Nat) : String := if l.isEmpty then "-" else ".".intercalate (l.map toString)
+
+/-- `r:x,r:x` or `-` -/
+def parseTab (s : String) : Option (List (Nat × Nat)) :=
+  if s == "-" || s == "" then some [] else
+  (s.splitOn ",").mapM fun e =>
+    match e.splitOn ":" with
+    | [a, b] => do pure (← a.toNat?, ← b.toNat?)
+    | _ => none
+
+def tabFn (t : List (Nat × Nat)) (r : Nat) : Nat := match t.lookup r with | some x => x | none => r
+
+def foldOf (f l : List (Nat × Nat)) : Fold := ⟨tabFn f, tabFn l⟩
+
+def parseDocs (s : String) : Option (List (List Nat)) := (s.splitOn "|").mapM parseRunes
+
+def showRes (r : Results) : String :=
+  "|".intercalate (r.map fun d => if d.isEmpty then "-" else ",".intercalate (d.map fun (o, z) => s!"{o}:{z}"))
+
+def parseRes (s : String) : Option Results :=
+  (s.splitOn "|").mapM fun d =>
+    if d == "-" || d == "" then some [] else
+    (d.splitOn ",").mapM fun e =>
+      match e.splitOn ":" with
+      | [a, b] => do pure (← a.toNat?, ← b.toNat?)
+      | _ => none
+
+def stripPrefix? (p s : String) : Option String :=
+  if s.startsWith p then some (s.drop p.length).toString else none
+
+def showTri (t : Tri) : String := s!"{t.1}.{t.2.1}.{t.2.2}"
+
+/-- all selections `first ≤ last` of pattern trigram indices -/
+def allSels (n : Nat) : List (Nat × Nat) :=
+  (List.range n).flatMap fun a => ((List.range n).filter (a ≤ ·)).map fun b => (a, b)
+
+def modelSearch (F : Fold) (sel : Nat × Nat) (pat : List Nat) (docs : List (List Nat)) (engine : Results) : Results × Results :=
+  (docs.map (substrSearch F sel pat docs), (docs.zip engine).map fun (d, e) => regexSearch F sel pat docs d e)
+
+/--
+ops (`f=` simpleFold table, `l=` ToLower table; identity where not listed)
+  `var <a.b.c> f=…`                       → the variants of `generateCaseNgrams`, in order
+  `cfe <pat> <text> <p> f=… l=…`          → `lower=<toLower(pat)> sz=<byteMatchSz> ok=<0|1>` of matchContent at rune offset p
+  `rq <fold> <runes>`                      → `substring <runes>` | `regexp`: what `RegexpQuery` builds for a literal regexp
+  `search <pat> <doc|doc|…> e=<engine's FindAllIndex per doc> f=… l=…` → `s=<results> r=<results>`: the model's results for the trigram selection that
+                                            reproduces the implementation's output (the selection depends on shard statistics),
+                                            for selection (0,0) if none does; verdict = checkP on the implementation's output
+-/
+def handle (line : String) : String :=
+  let (inp, impl) := splitCase line
+  match fields inp with
+  | ["var", t, f] =>
+    match parseRunes t, (stripPrefix? "f=" f).bind parseTab with
+    | some [a, b, c], some ft =>
+      answer (";".intercalate ((generateCaseNgrams (foldOf ft []) (a, b, c)).map showTri))
+    | _, _ => badCase "var fields"
+  | ["cfe", pat, text, p, f, l] =>
+    match parseRunes pat, parseRunes text, p.toNat?, (stripPrefix? "f=" f).bind parseTab, (stripPrefix? "l=" l).bind parseTab with
+    | some pat, some text, some p, some ft, some lt =>
+      let F := foldOf ft lt
+      let r := matchContentCI F pat text p
+      answer s!"lower={showRunes (toLower F pat)} sz={r.1} ok={showBool r.2}"
+    | _, _, _, _, _ => badCase "cfe fields"
+  | ["search", pat, docs, e, f, l] =>
+    match parseRunes pat, parseDocs docs, (stripPrefix? "e=" e).bind parseRes, (stripPrefix? "f=" f).bind parseTab,
+      (stripPrefix? "l=" l).bind parseTab with
+    | some pat, some docs, some engine, some ft, some lt =>
+      if engine.length != docs.length then badCase "engine results" else
+      let F := foldOf ft lt
+      let render := fun (x : Results × Results) => s!"s={showRes x.1} r={showRes x.2}"
+      let cands := (allSels (pat.length - 2)).map fun sel => render (modelSearch F sel pat docs engine)
+      let model := match cands.find? (· == impl) with
+        | some m => m
+        | none => cands.headD "?"
+      match fields impl with
+      | [a, b] =>
+        match (stripPrefix? "s=" a).bind parseRes, (stripPrefix? "r=" b).bind parseRes with
+        | some s, some r => if checkP s r then answer model else specFail model "substring-vs-regexp-differ"
+        | _, _ => badCase "search impl"
+      | _ => badCase "search impl fields"
+    | _, _, _, _, _ => badCase "search fields"
+  | ["rq", fold, rs] =>
+    match bool? fold, parseRunes rs with
+    | some fold, some rs =>
+      answer (match regexpQueryLit fold rs with
+        | .substring p => s!"substring {showRunes p}"
+        | .regexp => "regexp")
+    | _, _ => badCase "rq fields"
+  | _ => badCase "op"
+
+def main : IO Unit := runLines handle
 end ZoektModel.C08
